@@ -1,0 +1,24 @@
+//! Verification hook points (only compiled with `--cfg grass_verif`).
+use std::sync::atomic::{AtomicUsize, Ordering};
+
+#[derive(Debug, Clone, Copy, PartialEq, Eq)]
+pub enum Site {
+    Intern,
+    ComplexSelectorId,
+    BuiltinId,
+}
+
+static HOOK: AtomicUsize = AtomicUsize::new(0);
+
+pub fn set_hook(f: Option<fn(Site)>) {
+    HOOK.store(f.map_or(0, |f| f as usize), Ordering::SeqCst);
+}
+
+#[inline]
+pub fn point(site: Site) {
+    let h = HOOK.load(Ordering::Relaxed);
+    if h != 0 {
+        let f: fn(Site) = unsafe { std::mem::transmute(h) };
+        f(site);
+    }
+}
